@@ -13,7 +13,7 @@ def cfgs(ctx):
         return [("Traversal_plan3q.cfg", None, None), ("Traversal_elide4.cfg", None, None), ("Traversal_spell3q.cfg", None, None),
                 ("Traversal_sim.cfg", "num=25", 8)]
     return [("Traversal_plan3.cfg", None, None), ("Traversal_elide5.cfg", None, None), ("Traversal_spell3.cfg", None, None),
-            ("Traversal_wide2.cfg", None, None), ("Traversal_sim.cfg", "num=2000", 8)]
+            ("Traversal_wide2.cfg", None, None), ("Traversal_sim.cfg", "num=600", 8)]
 
 
 def run(ctx, variants=("noload", "literal", "prod"), prop_prefix="plan"):
